@@ -70,23 +70,24 @@ def _mut_defs(body):
         if not cs.args:
             continue
         tys = cs.term.get("arg_tys", [])
-        if not tys or not tys[0].startswith("&mut "):
-            continue
-        l = op_local(cs.args[0])
-        seen = set()
-        while l is not None and l in refs and l not in seen:
-            seen.add(l)
-            p = refs[l]
-            base = p["l"]
-            derefs = any(e == "*" for e in p["p"])
-            out.setdefault(base, []).append(cs)
-            if derefs:
-                l = base
-            else:
-                break
-        if l is not None and l not in refs:
-            # the &mut value itself is a parameter / upvar / loaded from somewhere: updates go to it
-            out.setdefault(l, []).append(cs)
+        for pos, a in enumerate(cs.args):
+            if pos >= len(tys) or not tys[pos].startswith("&mut "):
+                continue
+            l = op_local(a)
+            seen = set()
+            while l is not None and l in refs and l not in seen:
+                seen.add(l)
+                p = refs[l]
+                base = p["l"]
+                derefs = any(e == "*" for e in p["p"])
+                out.setdefault(base, []).append((cs, pos))
+                if derefs:
+                    l = base
+                else:
+                    break
+            if l is not None and l not in refs:
+                # the &mut value itself is a parameter / upvar / loaded from somewhere: updates go to it
+                out.setdefault(l, []).append((cs, pos))
     body._mutdefs = out
     return out
 
@@ -219,14 +220,15 @@ def origins(body, start, opaque=None, follow_workspace=False, max_nodes=20000):
                     sl.leaves.add("closure:%s" % rv["def"])
                 for o in rv["ops"]:
                     add_op(o)
-        for cs in mutdefs.get(l, []):
+        for cs, pos in mutdefs.get(l, []):
             sl.calls.append(cs)
             if is_opaque(cs):
                 sl.leaves.add("call:%s" % cs.name)
                 continue
             sl.via.add(cs.name)
-            for a in cs.args[1:]:
-                add_op(a)
+            for j, a in enumerate(cs.args):
+                if j != pos:
+                    add_op(a)
     return sl
 
 
